@@ -125,7 +125,8 @@ def record(args):
                 distinct = n > 12 or bool(rng.integers(0, 2) == 0)  # tie-heavy tables only on short series
                 tab = all_cuts_table(rng, n, 3 if mode == "contains" else 4, vmax, distinct=distinct)
                 tab2 = {k: split_columns(v, p, rng) for k, v in tab.items()}
-                mk = (lambda: TableChangeScore(tab2, p=p)) if mode == "contains" else (lambda: TableLocalScore(tab2, p=p))
+                io = bool(rng.integers(0, 2))   # the user-defined score may return an int64 array
+                mk = (lambda: TableChangeScore(tab2, p=p, int_out=io)) if mode == "contains" else (lambda: TableLocalScore(tab2, p=p, int_out=io))
                 h = float(rng.integers(0, max(list(tab.values()) + [0]) + 1)) + 0.5
                 X = np.zeros((n, p))
                 value = lambda cut: 2 * tab[cut]
